@@ -100,13 +100,19 @@ pub fn run(ctx: &mut Ctx) {
                 dyadic_weights(rng, nv, wild)
             }
         };
+        // one case in six leaves every weight at its default: equal weights 1/n
+        let defaults = idx % 6 == 1;
+        let mk = |rng: &mut Rng| -> Vec<f64> { if defaults { vec![1.0 / nv as f64; nv] } else { mk(rng) } };
         let wd = mk(rng);
         let wp: Vec<Vec<f64>> = (0..nstream).map(|_| mk(rng)).collect();
         let wg: Vec<Vec<f64>> = (0..nstream).map(|_| mk(rng)).collect();
-        let mut setters_ok = iw.set_duration(&wd).is_ok();
-        for i in 0..nstream {
-            setters_ok &= iw.set_parameter(i, &wp[i]).is_ok();
-            setters_ok &= iw.set_gv(i, &wg[i]).is_ok();
+        let mut setters_ok = true;
+        if !defaults {
+            setters_ok &= iw.set_duration(&wd).is_ok();
+            for i in 0..nstream {
+                setters_ok &= iw.set_parameter(i, &wp[i]).is_ok();
+                setters_ok &= iw.set_gv(i, &wg[i]).is_ok();
+            }
         }
         let descr = |extra: J| {
             J::obj()
